@@ -251,7 +251,9 @@ def hop_systems(draw, tier='quick', max_sites=6, max_diff=3, max_frames=10, lat_
                 col.append([s, cls, d])
                 t += 1
         plan.append(col)
-    case = {'lattice': lat, 'sites': {'frac': sites['frac'], 'labels': sites['labels']}, 'radius': radius, 'inner_fraction': float(f),
+    # site coordinates may be handed over in any periodic image (a Structure keeps them as given)
+    shifts = [[draw(st.sampled_from([0, 0, 0, 0, 0, -1, 1, 2])) for _ in range(3)] for _ in sites['frac']]
+    case = {'lattice': lat, 'sites': {'frac': sites['frac'], 'labels': sites['labels'], 'image_shift': shifts}, 'radius': radius, 'inner_fraction': float(f),
             'diff': path.tolist(), 'plan': plan, 'time_step': 1e-15, 'temperature': draw(st.sampled_from([300.0, 700.0]))}
     if framework:
         nf = draw(st.integers(1, 4))
